@@ -26,7 +26,11 @@ from rpylib.process.levyprocess import (
     SimulationWithJumpTimes,
     SimulationMaximumStep,
 )
-from rpylib.process.markovchain.markovchain import MarkovChain, compute_mu_h
+from rpylib.process.markovchain.markovchain import (
+    MarkovChain,
+    compute_mu_h,
+    running_values_over_intervals,
+)
 from rpylib.product.payoff import PayoffDates
 from rpylib.product.product import Product
 
@@ -340,7 +344,7 @@ class MCLevyCopulaSimulationWithJumpTimes(
 
     def simulate_jumps(self):
         mc = self.simulate_markov_chain()
-        jump_values = np.concatenate(mc.values, axis=-1).T
+        jump_values = running_values_over_intervals(mc.values, self._dimension).T
         jump_times = mc.times
         return jump_times, jump_values
 
